@@ -333,7 +333,7 @@ Proof.
     apply singleton_replace; auto.
   - (* Connection: excluded; stored with set semantics or as the close flag *)
     assert (E : beq k n = false) by (eapply excluded_class_neq; eauto; exact I).
-    rewrite E, app_nil_r. destruct (beq (remove_newlines v) tokClose); [reflexivity|].
+    rewrite E, app_nil_r. destruct (has_header_value (remove_newlines v) tokClose); [reflexivity|].
     cbn [f_ct f_ce f_server f_h f_cookies]. rewrite !client_fields_app, !f_get_app.
     rewrite !f_get_client_filter_date by assumption. now rewrite f_get_client_set_arg by assumption.
   - (* Server *)
